@@ -686,6 +686,13 @@ func (fc *FnCtx) assignedIn(nodes ...ast.Node) []modTarget {
 						}
 					}
 				}
+				// library calls that write into their first argument
+				if fn := calleeFunc(fc.info, s); fn != nil && len(s.Args) > 0 {
+					switch fn.FullName() {
+					case "unicode/utf8.EncodeRune":
+						add(rootOf(s.Args[0]))
+					}
+				}
 				// arguments named in a contract's modifies
 				if fn := calleeFunc(fc.info, s); fn != nil {
 					if c := fc.e.contractForFunc(fn); c != nil {
@@ -1032,6 +1039,21 @@ func (fc *FnCtx) execRange(st *State, x *ast.RangeStmt) []Outcome {
 		}
 		r, w := fc.e.decodeRune(body, Substr(s, idx, StrLen(s)))
 		step = w
+		if sawLineFns {
+			// one rune further: a line feed is exactly the one-byte rune 10 (bytes of longer runes and invalid bytes are >= 0x80)
+			nx := Add(idx, w)
+			isNL := Eq(r, Int(10))
+			body.Assume(Eq(App("nl.count", SInt, s, nx), Add(App("nl.count", SInt, s, idx), Ite(isNL, Int(1), Int(0)))))
+			body.Assume(Eq(App("nl.start", SInt, s, nx), Ite(isNL, nx, App("nl.start", SInt, s, idx))))
+			body.Assume(And(Eq(App("nl.count", SInt, s, Int(0)), Int(0)), Eq(App("nl.start", SInt, s, Int(0)), Int(0))))
+			fc.e.trusted["spec functions nlCount / lineStart: a line feed occurs only as the one-byte rune 10 (UTF-8 continuation and lead bytes are >= 0x80)"] = true
+		}
+		if sawRuneStart {
+			// the positions the loop visits are the rune starts of s: this one is, and none lies inside the rune
+			q := Var(fc.e.fresher.name("q"), SInt)
+			body.Assume(App("utf8.start", SBool, s, idx))
+			body.Assume(Forall([]*Term{q}, Implies(And(Lt(idx, q), Lt(q, Add(idx, w))), Not(App("utf8.start", SBool, s, q)))))
+		}
 		if keyObj != nil {
 			body.Declare(keyObj, idx)
 		}
@@ -1043,6 +1065,9 @@ func (fc *FnCtx) execRange(st *State, x *ast.RangeStmt) []Outcome {
 	for _, o := range fc.execBlock(body, x.Body.List) {
 		switch {
 		case o.kind == oFall || (o.kind == oContinue && (o.label == "" || o.label == lbl)):
+			// loopN.bodyend: the end of an iteration, key still naming the element just processed;
+			// loopN.end: the same point seen from the loop head (key already advanced)
+			fc.applyUsesScope(o.st, fmt.Sprintf("loop%d.bodyend", n), scope)
 			sc := map[string]Value{keyName: Add(idx, step)}
 			fc.applyUsesScope(o.st, fmt.Sprintf("loop%d.end", n), sc)
 			fc.checkInvariants(o.st, ls, n, fc.phaseOf(o), sc, x.Pos())
@@ -1215,7 +1240,10 @@ func (fc *FnCtx) applyUsesScope(st *State, where string, extra map[string]Value)
 			sc.pol = 1
 			t := sc.evalBool(a.Expr)
 			fc.oblige(st, "assert", t, token.NoPos, a.Text+" @"+where)
-			st.Assume(t)
+			// as a hypothesis the clause is read in the other polarity (a forall stays a forall)
+			sh := fc.specCtx(st, extra)
+			sh.pol = -1
+			st.AssumeKey(sh.evalBool(a.Expr))
 		}
 	}
 }
